@@ -424,6 +424,11 @@ impl<T: Clone + Eq + Debug + Default> WrappedBlock<T> {
                 // Write any remaining whitespace
                 while self.wslen > 0 {
                     let to_copy = self.wslen.min(self.width);
+                    if to_copy == 0 {
+                        // Zero-width block: the whitespace can't be placed.
+                        self.wslen = 0;
+                        break;
+                    }
                     self.line.push_ws(to_copy, self.spacetag.as_ref().unwrap());
                     if to_copy == self.width {
                         self.flush_line();
@@ -617,6 +622,11 @@ impl<T: Clone + Eq + Debug + Default> WrappedBlock<T> {
                             let mut at_least_one_space = false;
                             while pos % tab_stop != 0 || !at_least_one_space {
                                 if pos >= self.width {
+                                    if self.width == 0 {
+                                        // A zero-width block can't hold any
+                                        // column; drop the tab.
+                                        break;
+                                    }
                                     self.flush_line();
                                     pos = 0;
                                 } else {
